@@ -25,6 +25,9 @@ import Ts.Lemmas.C10
 * `DroppedClausePmt'` — the dropped clause as a statement about handler tags.
 * `Foreign` / `Interleaves` / `RealisesEvI` / `RealisesI` — realisations with elementary-stream packets
   between the packets of one table.
+* `DistinctPmtPids` / `DistinctPmtPidsAll` / `pmtPidOf` — the scope in which "PMT of a PMT PID" (what
+  `Event.pmtApplied` / `currentOf` say) is "PMT of a PROGRAM" (what the property says): no two programs of
+  one PAT share a PMT PID.
 
 Why `slots` is part of the state and not computed from "latest PAT + latest PMTs": because of the
 quirks, routing is history dependent — a PID can stay routed to a handler that no current table lists.
@@ -428,5 +431,53 @@ inductive RealisesI : Route → List Event → List Pk → Prop where
   | nil (r : Route) : RealisesI r [] []
   | cons {r : Route} {ev : Event} {evs : List Event} {pks1 pks2 : List Pk} :
       RealisesEvI r ev pks1 → RealisesI (stepRoute r ev) evs pks2 → RealisesI r (ev :: evs) (pks1 ++ pks2)
+
+/-! ### scope of the reading "PMT of a PROGRAM": distinct program-map PIDs (DESIGN 8.1b)
+
+`Event.pmtApplied pmtPid ver body` carries NO program number, `wfEv` compares `ver` only with the memory
+of the handler instance on `pmtPid`, and `currentOf` is keyed by `pmtPid`: this file formalises "the
+most recent PMT of a program" as "the most recent PMT applied on that program's PMT PID".  The two
+readings coincide only when a PMT PID stands for ONE program; `DistinctPmtPids` says so.  ISO/IEC
+13818-1 does not forbid two PAT entries naming the same PID, so histories violating it are LEGAL inputs
+outside this vocabulary (witnesses: `Ts.Props.C05History.shared_pmt_pid_same_version_unrouted`,
+`shared_pmt_pid_alternating`). -/
+
+/-- the program number a PAT entry announces (`none`: the network entry, program number 0) -/
+def progNum : PatEntry → Option Nat
+  | .program n _ => some n
+  | .network _ => none
+
+/-- Within ONE PAT, entries naming the same PID announce the same thing: two program entries with
+DIFFERENT program numbers name different PIDs, and a program entry and a network entry name different
+PIDs.  (The same entry listed twice, and one program number listed with two different PIDs, are not
+excluded.) -/
+def DistinctPmtPids (es : List PatEntry) : Prop :=
+  ∀ e ∈ es, ∀ e' ∈ es, e.pid = e'.pid → progNum e = progNum e'
+
+instance (es : List PatEntry) : Decidable (DistinctPmtPids es) := by
+  unfold DistinctPmtPids; infer_instance
+
+/-- every PAT version applied in the history satisfies `DistinctPmtPids`
+(`Ts.Props.C05History.distinctPmtPidsAll_iff`: `∀ v es, .patApplied v es ∈ evs → DistinctPmtPids es`) -/
+def DistinctPmtPidsAll : List Event → Prop
+  | [] => True
+  | .patApplied _ es :: evs => DistinctPmtPids es ∧ DistinctPmtPidsAll evs
+  | _ :: evs => DistinctPmtPidsAll evs
+
+instance DistinctPmtPidsAll.dec : (evs : List Event) → Decidable (DistinctPmtPidsAll evs)
+  | [] => isTrue trivial
+  | .patApplied _ es :: evs =>
+    have := DistinctPmtPidsAll.dec evs
+    inferInstanceAs (Decidable (DistinctPmtPids es ∧ DistinctPmtPidsAll evs))
+  | .pmtApplied _ _ _ :: evs => DistinctPmtPidsAll.dec evs
+  | .esPacket _ :: evs => DistinctPmtPidsAll.dec evs
+  | .repetition _ :: evs => DistinctPmtPidsAll.dec evs
+
+/-- the PMT PID a PAT announces for program number `prog`: the PID of the FIRST program entry with
+that number (`none`: the PAT does not list the program) -/
+def pmtPidOf (es : List PatEntry) (prog : Nat) : Option Nat :=
+  es.findSome? fun e => match e with
+    | .program n p => if n = prog then some p else none
+    | .network _ => none
 
 end Ts.Spec.RoutingHistory
